@@ -34,8 +34,8 @@ P = {
                 text="distance, distanceZ, distanceXY, angle, dihedral, gyration, rmsd, eigenvector, alchLambda, +-1 combinations, oneSiteTotalForce, both timing conventions, subtractAppliedForce, hideJacobian.",
                 note="random (non-dyadic) inputs so that the known exact-cancellation finding of C04 is not triggered"),
     "C08": dict(cat="exploration", tech="runtime monitor: differential runs at the engine boundary (biases {A,B} vs {A} and {B}; time-step factor n vs 1) on imposed histories",
-                text="Sets of biases {A,B,...} run together and separately on the same imposed history: energies and atomic forces of the joint run equal the sums of the separate runs, and a bias with applyBias off / zero strength contributes nothing. Biases and variables with timeStepFactor n: asleep between their steps (no value update, no force), awake steps apply n times the instantaneous force, impulse over a window equals the factor-1 impulse of the sampled steps; runs starting off-multiple (restart, setstep).", note="a variable with factor n under a bias whose factor is not a multiple of n is computed off its schedule: known finding (manual allows the combination)"),
-    "C09": dict(cat="exploration", tech="libFuzzer + ASan/UBSan on read_config_string (hermetic proxy); enumerated keyword/brace/value mutations that must be rejected; documented layout rewrites compared bitwise A third of the joint runs with >= 3 biases use the library's own OpenMP loops with a thread count that does not divide the number of biases.",
+                text="Sets of biases {A,B,...} run together and separately on the same imposed history: energies and atomic forces of the joint run equal the sums of the separate runs, and a bias with applyBias off / zero strength contributes nothing. Biases and variables with timeStepFactor n: asleep between their steps (no value update, no force), awake steps apply n times the instantaneous force, impulse over a window equals the factor-1 impulse of the sampled steps; runs starting off-multiple (restart, setstep). A third of the joint runs with >= 3 biases use the library's own OpenMP loops with a thread count that does not divide the number of biases.", note="a variable with factor n under a bias whose factor is not a multiple of n is computed off its schedule: known finding (manual allows the combination)"),
+    "C09": dict(cat="exploration", tech="libFuzzer + ASan/UBSan on read_config_string (hermetic proxy); enumerated keyword/brace/value mutations that must be rejected; documented layout rewrites compared bitwise",
                 text="libFuzzer on read_config_string with a dictionary harvested from the sources (quick: 8 workers x 2000 executions, thorough: 16 x 25000); accepted configurations under the damage classes the property names (misspelt keyword, keyword in a block where it is not valid, one brace deleted or added, value of a non-boolean keyword deleted, number replaced by an alphabetic token) must be rejected with an error and leave the module usable; documented layout rewrites (blank lines, indentation, comments, CRLF, blocks joined on one line, brace on the last value line, boolean synonyms, keyword case) must produce a bit-identical model (values, energies, forces after steps).", note="fuzz corpus is seeded from the generated templates; crashes are keyed by sanitizer kind and innermost Colvars frame"),
     "C10": dict(cat="exploration", tech="ASan/UBSan processes over a (object type x keyword x boundary value) grid, one process per case; differential test of surviving objects after a rejected configuration",
                 text="Every keyword (occurring in a template or harvested from the get_keyval calls of the class that parses the block) x {0, -1, 1, 2, 2^31-1, 2^31, 2^32, 2^61, 2^63-1, 1e30, 1e308, nan, inf, -inf, empty, removed, list/vector length errors, bad atoms, missing files, swapped boundaries} plus seeded pairs, one ASan/UBSan process per case through init, steps, state and output writes: must end with success or an error, never a signal, sanitizer report, escaping exception, unbounded allocation or hang. Survivors: after a rejected configuration fed through cv config (including colvars that use the deprecated wall keywords), the previously defined objects behave bit-identically to a control that never saw it, and a later valid configuration is accepted in both.", note="quick runs a stratified sample (about 3800 cases), thorough about 40000; hang = 120 s watchdog re-run once at 10x before it is reported"),
@@ -52,8 +52,8 @@ P = {
                 text="2-4 walkers; every exchange of every walker compared with the union of all walkers' samples (counts ==); metadynamics walkers under a seeded interleaving and partially visible peer files must end up with the hill sum over the union within two update periods. Shared-ABF groups started from earlier .count/.grad files (inputPrefix; counted once, never in a walker's own contribution); each metadynamics walker's .pmf file (with or without the partial file) against the bias it applies once everything received is tabulated.",
                 note="bounded-progress form of 'eventually'; replica communication simulated between processes"),
     "C15": dict(cat="exploration", tech="runtime monitor: imposed dyadic values (on bin edges, boundaries, periods away) vs the literal binning rule, stored counts and multicolumn file compared cell by cell; in-process grid write/read round trips (multicol, restart text/binary, raw)",
-                text="Histograms and ABF count grids of 1-3 variables fed imposed dyadic values on bin edges, boundaries, just inside/outside, whole periods away: every sample lands in exactly the bin given by floor((x-lower)/width) (periodic: modulo), out-of-range samples are dropped (not clamped), totals conserved; grids written as multicolumn / restart text / restart binary / raw and read back must reproduce parameters and data exactly.", note="gatherVectorColvars histograms are rejected by the library at initialisation (known finding), so per-element weights cannot be exercised"),
-    "C16": dict(cat="exploration", tech="in-process harness on integrate_potential / gradient grids with independent numpy oracles: 1-D cumulative sums and closure, residual of the discrete Poisson problem (own operator, independent Laplacian, dense least squares), refinement-order test against analytic surfaces, incremental-vs-batch divergence through the guarded accessor, real ABF runs Decimal (not exactly representable) boundaries and widths whose quotient is a whole number of bins mathematically, with samples exactly on decimal bin edges.",
+                text="Histograms and ABF count grids of 1-3 variables fed imposed dyadic values on bin edges, boundaries, just inside/outside, whole periods away: every sample lands in exactly the bin given by floor((x-lower)/width) (periodic: modulo), out-of-range samples are dropped (not clamped), totals conserved; grids written as multicolumn / restart text / restart binary / raw and read back must reproduce parameters and data exactly. Decimal (not exactly representable) boundaries and widths whose quotient is a whole number of bins mathematically, with samples exactly on decimal bin edges.", note="gatherVectorColvars histograms are rejected by the library at initialisation (known finding), so per-element weights cannot be exercised"),
+    "C16": dict(cat="exploration", tech="in-process harness on integrate_potential / gradient grids with independent numpy oracles: 1-D cumulative sums and closure, residual of the discrete Poisson problem (own operator, independent Laplacian, dense least squares), refinement-order test against analytic surfaces, incremental-vs-batch divergence through the guarded accessor, real ABF runs",
                 text="Random fields on 1-3-D grids with all periodicity patterns and anisotropic widths, six arrival-order classes, three resolutions per analytic surface; the divergence itself against the documented formula evaluated independently (several grids per process); end-to-end files of the TI estimator and of 2-D ABF/eABF fed through inputPrefix (zero-step merge runs and short runs). Residual law also for a second integration of one object started from the surface of other data.",
                 note="max-norm order at corners where >=2 non-periodic directions meet is h^2 log(1/h): counted separately, RMS order must still be 2"),
     "C17": dict(cat="exploration", tech="lock-step reference model of the documented BAOA integrator with a controlled Gaussian source + model-free invariants on the observed coordinate/velocity/energies",
@@ -66,7 +66,7 @@ P = {
                 text="Column/label agreement, step stamps, one line per multiple of the output frequency across run boundaries and object addition/deletion; running average/deviation and auto/cross correlation functions vs textbook definitions. harmonicWalls energy column against the closed form (one or two wall constants; below, between and above the walls).",
                 note="printed precision (1e-10 relative for derived quantities)"),
     "C20": dict(cat="exploration", tech="libFuzzer + ASan/UBSan over script command sequences with a usability epilogue; agreement of script queries with the engine-side event log; equivalence of script-driven and engine-driven paths",
-                text="libFuzzer over sequences of run_colvarscript_command calls (well-formed and malformed, every command of the table at least once each way) interleaved with steps, with an epilogue that must behave as a pristine module; after every step of generated scenarios the script queries equal the engine-side event log at the printed precision; cv config / load / loadfromstring (objects defined in the same or in reverse order, into a fresh module or into one that has already run) / addforce / delete / modifycvcs are equivalent to their engine-driven counterparts on the subsequent steps; two interactive sessions with the same history, one through files (configfile, bias save/load twice under one name, reset, file replaced, configfile) and one through strings, give equal step events.", note="equivalence is bitwise, except reordered loaders (sums run in another order): 1e-9 relative"),
+                text="libFuzzer over sequences of run_colvarscript_command calls (well-formed and malformed, every command of the table at least once each way) interleaved with steps, with an epilogue that must behave as a pristine module; after every step of generated scenarios the script queries equal the engine-side event log at the printed precision; cv config / load / loadfromstring (objects defined in the same or in reverse order, into a fresh module or into one that has already run) / addforce / delete / modifycvcs are equivalent to their engine-driven counterparts on the subsequent steps; two interactive sessions with the same history, one through files (configfile, bias save/load twice under one name, reset, file replaced, configfile) and one through strings, give equal step events. addforce on orientation / distanceVec / distanceDir variables: getappliedforce returns F, atomic forces linear in F; two cv config pieces against the whole text read at once, module-level options given once.", note="equivalence is bitwise, except reordered loaders (sums run in another order): 1e-9 relative"),
 }
 
 
@@ -90,7 +90,7 @@ def main():
             "thorough_cmd": "./vcheck %s --tier thorough" % pid,
             "evidence_file": "/verif/evidence/%s.json" % pid,
             "replay_cmd_template": "./vcheck %s --replay {path}" % pid,
-            "engine": "esim addforce on orientation / distanceVec / distanceDir variables: getappliedforce returns F, atomic forces linear in F; two cv config pieces against the whole text read at once, module-level options given once.",
+            "engine": "esim",
             "level_claimed": {"category": p["cat"], "text": p["text"], "design_ref": "DESIGN.md section 2, " + pid},
             "level_note": p["note"] or "trusts the engine simulator and the reference model written from the manual",
             "technique": p["tech"],
